@@ -1563,6 +1563,52 @@ def sroa(prog, inl, fn, known_fields, log):
     return new
 
 
+def constfold(fn):
+    """length of a string literal spelled as a call: std::char_traits<char>::length("--no-"), std::strlen("--no-") -> 5 (in place). The
+    prefix a guard tests and the offset an accessor cuts at are then the same number however either is written."""
+    def fold(tree):
+        if not isinstance(tree, dict):
+            return
+        for n in ir.walk(tree):
+            if isinstance(n, dict) and n.get("k") == "call" and len(n.get("args", [])) == 1 and n.get("this") is None:
+                nm = n.get("name") or ""
+                if nm.endswith("char_traits<char>::length") or nm in ("strlen", "std::strlen"):
+                    a = ir.unwrap(n["args"][0])
+                    while isinstance(a, dict) and a.get("k") == "cast":
+                        a = ir.unwrap(a["e"])
+                    if isinstance(a, dict) and a.get("k") == "lit" and a.get("t") == "str" and isinstance(a.get("v"), str):
+                        ln = n.get("ln")
+                        v = len(a["v"])
+                        n.clear()
+                        n.update({"k": "lit", "t": "unsigned long", "v": v, "ln": ln, "type": "std::size_t", "bits": 64})
+    def named(tree):
+        # a named integral / character / bool constant with a literal initialiser reads as that literal (`size() != short_name_length` is `size() != 1`)
+        if not isinstance(tree, dict):
+            return
+        for n in ir.walk(tree):
+            if isinstance(n, dict) and n.get("k") in ("ref", "member") and isinstance(n.get("const_init"), dict):
+                ci = ir.unwrap(n["const_init"])
+                while isinstance(ci, dict) and ci.get("k") == "cast":
+                    ci = ir.unwrap(ci["e"])
+                if isinstance(ci, dict) and ci.get("k") == "lit" and ci.get("t") != "str" and not isinstance(ci.get("v"), str) and (n.get("k") == "ref" or n.get("static")):
+                    keep = {"ln": n.get("ln"), "type": n.get("type"), "bits": n.get("bits")}
+                    lit = dict(ci)
+                    n.clear()
+                    n.update(lit)
+                    for k0, v0 in keep.items():
+                        if v0 is not None and k0 not in n:
+                            n[k0] = v0
+    for b in fn.blocks.values():
+        for e in b.get("elems", []):
+            fold(e.get("expr"))
+            if (fn.file or "").startswith("/repo/"):
+                named(e.get("expr"))
+        if (fn.file or "").startswith("/repo/"):
+            named((b.get("term") or {}).get("cond"))
+        t = b.get("term") or {}
+        fold(t.get("cond"))
+
+
 def normalise(prog, known=None):
     """replace every function that calls an unknown /repo helper by its expanded form; returns the inlining log"""
     known = load_known() if known is None else known
@@ -1579,6 +1625,7 @@ def normalise(prog, known=None):
         if not f.has_cfg:
             continue
         g = inl.expand(f)
+        constfold(g)
         if g is not f and kf is not None:
             g = sroa(prog, inl, g, kf, inl.log)
         if known_locals is not None:
